@@ -66,3 +66,50 @@ pub fn gate_set(level: usize) {
 pub fn gate_get() -> usize {
     unsafe { GATE }
 }
+
+// ---------------------------------------------------------------------------------------------
+// E-clock: a sequence of instants (civil date/time fields + UTC offset in seconds) supplied by
+// the harness; the in-crate stub for `chrono::Local::now` pops them in order (the last one
+// repeats). Fields are kept as small integers so that no timestamp->date division is needed.
+#[derive(Clone, Copy)]
+pub struct Instant {
+    pub y: i32,
+    pub mo: u32,
+    pub d: u32,
+    pub h: u32,
+    pub mi: u32,
+    pub s: u32,
+    pub off: i32,
+}
+pub const NCLOCK: usize = 6;
+const I0: Instant = Instant { y: 2024, mo: 1, d: 1, h: 0, mi: 0, s: 0, off: 0 };
+static mut CLOCK: [Instant; NCLOCK] = [I0; NCLOCK];
+static mut CLOCK_N: usize = 0;
+static mut CLOCK_POS: usize = 0;
+static mut CLOCK_READS: usize = 0;
+pub fn clock_push(i: Instant) {
+    unsafe {
+        if CLOCK_N < NCLOCK {
+            CLOCK[CLOCK_N] = i;
+            CLOCK_N += 1;
+        }
+    }
+}
+/// Next instant of the sequence; the last one repeats once the sequence is exhausted.
+pub fn clock_next() -> Instant {
+    unsafe {
+        CLOCK_READS += 1;
+        let p = if CLOCK_POS < CLOCK_N { CLOCK_POS } else if CLOCK_N > 0 { CLOCK_N - 1 } else { 0 };
+        if CLOCK_POS < CLOCK_N {
+            CLOCK_POS += 1;
+        }
+        CLOCK[p]
+    }
+}
+pub fn clock_reads() -> usize {
+    unsafe { CLOCK_READS }
+}
+/// Lexicographic comparison of the civil fields (valid for equal offsets).
+pub fn instant_le(a: &Instant, b: &Instant) -> bool {
+    (a.y, a.mo, a.d, a.h, a.mi, a.s) <= (b.y, b.mo, b.d, b.h, b.mi, b.s)
+}
